@@ -98,9 +98,11 @@ class Gen:
         nf = r.choice([1, 1, 2, 3, 4, 6, 9, 14])
         scope = [self.field() for _ in range(r.randrange(1, 4))] if opts else []
         fields = [self.field() for _ in range(nf)]
+        if opts and r.random() < 0.2:
+            fields = []                      # an options template whose fields are all scope fields (RFC 7011 3.4.2.2 allows it)
         t = {"id": tid, "scope": scope, "fields": fields}
         if self.minlen(t) == 0:
-            fields.append({"e": 4, "l": 1, "pen": 0, "t": "unsigned8"})
+            (fields if fields or not scope else scope).append({"e": 4, "l": 1, "pen": 0, "t": "unsigned8"})
         return t
 
     def isvar(self, f):
@@ -137,6 +139,8 @@ class Gen:
             k = r.random()
             if k < 0.25:
                 o = list(r.choice(HOSTILE))
+            elif k < 0.32:
+                o = [r.randrange(97, 123) for _ in range(r.randrange(0, 6))] + [0] * r.randrange(1, 4)
             else:
                 n = r.choice([0, 1, 2, 5, 17, 60, 254, 255, 256, 700]) if r.random() < 0.5 else r.randrange(0, 40)
                 o = [r.randrange(256) for _ in range(n)] if f["t"] == "octetArray" or r.random() < 0.3 \
@@ -149,6 +153,9 @@ class Gen:
         if f["t"] == "string" and r.random() < 0.4 and n >= 3:
             h = list(r.choice(HOSTILE))
             return (h + [r.randrange(32, 127) for _ in range(n)])[:n]
+        if f["t"] == "string" and r.random() < 0.25 and n >= 2:
+            k = r.randrange(1, n)            # a fixed-length string padded with NULs: the value is the field's octets
+            return [r.randrange(97, 123) for _ in range(n - k)] + [0] * k
         k = r.random()
         if k < 0.1:
             return [0] * n
@@ -162,8 +169,14 @@ class Gen:
 
     def enc_record(self, t):
         out = []
+        k = self.rng.random()
         for f in t["scope"] + t["fields"]:
-            out += self.value(f)
+            if k < 0.06 and not self.isvar(f):
+                out += [0] * f["l"]          # a record of zero octets only (it is a record, not padding)
+            elif k < 0.09 and not self.isvar(f):
+                out += [255] * f["l"]
+            else:
+                out += self.value(f)
         return out
 
     def enc_set(self, sid, body, pad):
@@ -178,6 +191,32 @@ class Gen:
         return [0, 9] + u16(nrec & 0xffff) + w() + w() + w() + w()
 
     # ------------------------------------------------------------- histories
+    def per_element(self, variant):
+        """one template + data message pair per group of 6 elements, covering EVERY element of the snapshot: at its own
+        size (strings and octet arrays variable-length for IPFIX), at a reduced size, or at its own size + 2"""
+        ids = sorted(self.model)
+        hist = []
+        for k in range(0, len(ids), 6):
+            fields = []
+            for e in ids[k:k + 6]:
+                t = self.model[e]
+                if t in ("string", "octetArray"):
+                    ln = VARLEN if (self.proto == "ipfix" and variant == "own") else {"own": 5, "reduced": 3, "oversized": 9}[variant]
+                elif t in SIZES:
+                    ln = {"own": SIZES[t], "reduced": max(1, SIZES[t] - 1), "oversized": SIZES[t] + 2}[variant]
+                else:
+                    ln = 4
+                fields.append({"e": e, "l": ln, "pen": 0, "t": t})
+            tpl = {"id": 256 + len(hist) // 2, "scope": [], "fields": fields}
+            body = self.enc_tpl_rec(tpl)
+            ts = self.enc_set(2 if self.proto == "ipfix" else 0, body, 0 if self.proto == "ipfix" else (-len(body)) % 4)
+            recs = self.enc_record(tpl) + self.enc_record(tpl)
+            pad = 0 if self.proto == "ipfix" else ((-len(recs)) % 4 if (-len(recs)) % 4 < self.minlen(tpl) else 0)
+            ds = self.enc_set(tpl["id"], recs, pad)
+            hist.append(self.header(1, len(ts)) + ts)
+            hist.append(self.header(2, len(ds)) + ds)
+        return hist
+
     def history(self, nmsgs, budget=1400):
         """one exporter's history: templates announced, re-announced, data, undecodable sets"""
         r = self.rng
